@@ -46,6 +46,9 @@ THEOREMS = [
 ]
 PARTIAL = {}
 TRUSTED = [
+    "which directory a configured location denotes is resolved by the harness and is a parameter of the model/spec (absolute path, "
+    "path relative to the working directory, %(here)s of the ini file, package resource 'pkg:dir', 'pkg:dir/sub', 'pkg:dir:sub' = "
+    "<directory of the importable package pkg>/dir/sub); the implementation's own resolution is only compared with it",
     "the abstract filesystem handed to the model is read back from the real scratch tree by harness/files_fs.py "
     "(os.scandir, os.path.realpath, os.path.exists); os.walk order, realpath and byte-code loading are the platform's",
     "what importing a generated file yields (revision id / no `revision` attribute / raises) is taken from the generator's "
@@ -316,11 +319,11 @@ def run_tree(ctx, plan, settings, pending):
                 ctx.fail(inp, "split: configured locations %r (separator %r, option %r) are used as %r / %r" % (
                     expected["strings"], sep, impl["vl_option"], impl["version_locations"], impl["resolved"]),
                     impl={"version_locations": impl["version_locations"], "resolved": impl["resolved"]}, tags=["split"])
-                if any(not os.path.realpath(p).startswith(sc.root + os.sep) for p in impl["resolved"]):
-                    continue  # resolved outside the scratch tree: nothing to hand to the model
-            # the locations as the implementation resolved them
+            # the directories the configuration denotes (resolved by the harness: absolute / relative / %(here)s /
+            # package-resource spelling are parameters of the case), NOT the implementation's own resolution:
+            # a location the implementation mangles into a non-existing path must show up as missing revisions
             try:
-                locs = [sc.scan_location(p) for p in impl["resolved"]]
+                locs = [sc.scan_location(p) for p in expected["paths"]]
             except RuntimeError:
                 continue
             # the option string as the Config hands it to from_config (after ConfigParser, for ini delivery)
@@ -358,7 +361,8 @@ def flush(ctx, pending):
         st = inp.get("st", {})
         ctx.hist("config_delivery", "%s%s%s%s" % (st.get("delivery", "api"), "+other-section" if st.get("section") not in (None, "alembic") else "",
                                                   "+%(here)s" if st.get("here") and st.get("delivery") == "ini" else "",
-                                                  "+package-resource" if st.get("resource") and inp["sep"] not in (":", "os") else ""))
+                                                  ("+package-resource(%s)" % ("pkg:dir:sub" if st.get("resource") == "colon" else "pkg:dir/sub"))
+                                                  if st.get("resource") and inp["sep"] not in (":", "os") else ""))
         for flag, label in (("relative", "relative paths (cwd)"), ("slash", "trailing slash"), ("omit_false", "false settings left out"),
                             ("script_resource", "script_location as package resource"), ("extras", "truncate_slug_length + [post_write_hooks]")):
             if st.get(flag):
@@ -480,8 +484,8 @@ def gen_settings(rng):
             st["omit_false"] = True
         if rng.random() < 0.4:
             st["empty_option"] = True
-        if rng.random() < 0.2:
-            st["resource"] = True
+        if rng.random() < 0.25:
+            st["resource"] = rng.choice(["slash", "colon"])
         if rng.random() < 0.1:
             st["script_resource"] = True
         if rng.random() < 0.15:
@@ -563,6 +567,29 @@ def stream_prefix_locations(ctx):
         run_tree(ctx, plan, [{"sourceless": sl, "recursive": rec, "sep": seps[(k + i) % 4], "jseed": k,
                               "delivery": "ini" if (k + i) % 3 == 0 else "api", "here": True}
                              for i, (sl, rec) in enumerate(((False, False), (False, True), (True, False), (True, True)))], pending)
+    flush(ctx, pending)
+
+
+def stream_resource_locations(ctx):
+    """Deterministic battery: version locations written as package resources - `pkg:dir`, `pkg:dir/sub` and one colon
+    token per path segment `pkg:dir:sub`, `pkg:dir:sub:deep` - under every separator that does not itself split on `:`,
+    api and ini delivery, all four settings.  The scratch root is the (uniquely named) importable package."""
+    def f(path, rev):
+        return {"path": path, "kind": "src", "content": {"rev": rev}}
+
+    plan0 = {"dirs": ["scripts", "v1", "v1/sub", "v1/sub/deep", "v2", "v2/plugins"],
+             "files": [f("v1/a1.py", "w1"), f("v1/sub/b2.py", "w2"), f("v1/sub/deep/c3.py", "w3"), f("v2/d4.py", "w4"), f("v2/plugins/e5.py", "w5")],
+             "links": []}
+    pending = []
+    k = 0
+    for locs in (["v1"], ["v1/sub"], ["v1/sub/deep", "v2/plugins"], ["v2", "v1/sub"]):
+        for spelling in ("slash", "colon"):
+            for sep in (None, "space", "newline", ";"):
+                k += 1
+                sl, rec = bool(k & 1), bool(k & 2)
+                run_tree(ctx, {**plan0, "locations": locs},
+                         [{"sourceless": sl, "recursive": rec, "sep": sep, "jseed": k, "resource": spelling,
+                           "delivery": "ini" if k % 3 == 0 else "api", "script_resource": k % 5 == 0}], pending)
     flush(ctx, pending)
 
 
@@ -760,6 +787,7 @@ def run(ctx):
     stream_prepend_trees(ctx)
     stream_prefix_locations(ctx)
     stream_names(ctx)
+    stream_resource_locations(ctx)
     stream_forms(ctx)
     stream_trees(ctx, 9000 if ctx.thorough else 220)
 
